@@ -3,7 +3,7 @@
 //!
 //! case: tag base_ms nrules { id kind thr burst dur maxq idx key nspec (v t)* }*  ops...
 //!       kind: 0 concurrency, 1 qps reject, 2 qps throttling
-//! ops : B id nargs(-1 = none) v* natt(-1 = none) (k v)* batch | X id | A dt
+//! ops : B id nargs(-1 = none) v* natt(-1 = none) (k v)* batch | X id | A dt | Z mode (reload Eq-equal rules; prints nothing)
 //! out : n ids..  then  B -> 0 clock | 1 rule snapshot clock ; X -> 2 | 20 ; A -> 3 ; panic -> -1
 //!       (clock = virtual ms since base)
 use crate::util::*;
@@ -25,31 +25,44 @@ pub fn run_case(t: &mut Toks) -> Vec<i128> {
     clock::set_ms(base);
     let name = format!("h{}", tag);
     let nr = t.usize();
-    let mut rules = Vec::new();
+    let mut specs: Vec<(u64, u64, u64, u64, u64, u64, i64, u64, Vec<(u64, u64)>)> = Vec::new();
     for _ in 0..nr {
         let (id, kind, thr, burst, dur, maxq, idx, key) =
             (t.u64(), t.u64(), t.u64(), t.u64(), t.u64(), t.u64(), t.i64(), t.u64());
         let ns = t.usize();
-        let mut spec = HashMap::new();
+        let mut sp = Vec::new();
         for _ in 0..ns {
-            let (v, th) = (t.u64(), t.u64());
-            spec.insert(format!("v{}", v), th);
+            sp.push((t.u64(), t.u64()));
         }
-        rules.push(Arc::new(hotspot::Rule {
-            id: format!("H{}", id),
-            resource: name.clone(),
-            metric_type: if kind == 0 { hotspot::MetricType::Concurrency } else { hotspot::MetricType::QPS },
-            control_strategy: if kind == 2 { hotspot::ControlStrategy::Throttling } else { hotspot::ControlStrategy::Reject },
-            param_index: idx as isize,
-            param_key: if key == 0 { String::new() } else { format!("k{}", key) },
-            threshold: thr,
-            max_queueing_time_ms: maxq,
-            burst_count: burst,
-            duration_in_sec: dur,
-            params_max_capacity: 0,
-            specific_items: spec,
-        }));
+        specs.push((id, kind, thr, burst, dur, maxq, idx, key, sp));
     }
+    let mk = |z: u64, res: &String| -> Vec<Arc<hotspot::Rule>> {
+        specs
+            .iter()
+            .map(|(id, kind, thr, burst, dur, maxq, idx, key, sp)| {
+                let mut spec = HashMap::new();
+                for (v, th) in sp {
+                    spec.insert(format!("v{}", v), *th);
+                }
+                Arc::new(hotspot::Rule {
+                    id: format!("H{}", id + 100000 * z),
+                    resource: res.clone(),
+                    metric_type: if *kind == 0 { hotspot::MetricType::Concurrency } else { hotspot::MetricType::QPS },
+                    control_strategy: if *kind == 2 { hotspot::ControlStrategy::Throttling } else { hotspot::ControlStrategy::Reject },
+                    param_index: *idx as isize,
+                    param_key: if *key == 0 { String::new() } else { format!("k{}", key) },
+                    threshold: *thr,
+                    max_queueing_time_ms: *maxq,
+                    burst_count: *burst,
+                    duration_in_sec: *dur,
+                    params_max_capacity: 0,
+                    specific_items: spec,
+                })
+            })
+            .collect()
+    };
+    let rules = mk(0, &name);
+    let mut zcount = 0u64;
     let _ = hotspot::load_rules_of_resource(&name, rules);
     let lr = hotspot::get_rules_of_resource(&name);
     out.push(lr.len() as i128);
@@ -113,6 +126,27 @@ pub fn run_case(t: &mut Toks) -> Vec<i128> {
                 clock::advance_ns(dt as i128 * 1_000_000);
                 out.push(3);
             }
+            "Z" => {
+                let mode = t.u64();
+                zcount += 1;
+                let r = guarded(|| {
+                    let mut rs = mk(zcount, &name);
+                    rs.reverse();
+                    if mode == 0 {
+                        let _ = hotspot::load_rules_of_resource(&name, rs);
+                    } else {
+                        if mode == 2 && zcount % 2 == 1 {
+                            let other = format!("hz{}", tag);
+                            rs.extend(mk(zcount, &other));
+                        }
+                        hotspot::load_rules(rs);
+                    }
+                });
+                if r.is_none() {
+                    out.push(-1);
+                    panicked = true;
+                }
+            }
             x => panic!("bad op {}", x),
         }
     }
@@ -120,5 +154,7 @@ pub fn run_case(t: &mut Toks) -> Vec<i128> {
         let _ = guarded(|| e.exit());
     }
     let _ = guarded(|| hotspot::clear_rules_of_resource(&name));
+    let other = format!("hz{}", tag);
+    let _ = guarded(|| hotspot::clear_rules_of_resource(&other));
     out
 }
